@@ -18,17 +18,20 @@ import tempfile
 import traceback
 
 CLAIM = dict(
-    text=("Machine-checked proof (Lean 4) over ALL images, struct tables, option sets, clocks and call histories: the "
-          "datagram sequence of boot() is start(n-1), n blocks numbered 0..n-1 of <= 1 KiB, end(1); undoing the per-word "
-          "byte swap and concatenating gives the image with bytes 384..511 replaced by the first 128 bytes of the packed "
-          "sv struct; the packed struct holds, field by field, the file defaults overridden by this call's options and the "
-          "clock fields; the returned struct carries the same values; in the repaired (copy-before-update) model the k-th "
-          "call's outcome is a function of the k-th call's arguments only, and a kernel-evaluated witness shows that the "
-          "code as written (in-place update of the default dict) leaks options into the next boot. Tied to "
-          "rig/machine_control/boot.py, struct_file.py and MachineController.boot by exact event-trace correspondence "
-          "(connect/send/sleep/close, returned structs, exceptions) over generated boot histories, with the Lean "
-          "specification evaluated on the implementation's own datagrams; sark.struct and the boot constants are "
-          "regenerated from the source on every run by an independent parser."),
+    text=("Machine-checked proof (Lean 4) over ALL images, struct tables, option sets, clocks and call histories: (1) the "
+          "datagram sequence of boot() is start(n-1), n blocks numbered 0..n-1 of <= 1 KiB, end(1), sent to the host/port "
+          "of this call; (2) undoing the per-word byte swap and concatenating gives the image with bytes 384..511 replaced "
+          "by the first 128 bytes of the packed sv struct and nothing else changed; (3) Struct.pack writes every field "
+          "little-endian at its offset and zero elsewhere, and the fields carry the file defaults overridden by this "
+          "call's options and then the clock fields; (4) the returned struct carries the same values; (5) composed: every "
+          "in-domain call satisfies the executable specification specOK, which is the oracle evaluated on the "
+          "implementation's datagrams; (6) in the repaired (copy-before-update) model every call of every history is a "
+          "function of its own arguments and meets specOK, and a kernel-evaluated witness shows that the code as written "
+          "(in-place update of the default dict) leaks options into the next boot. Tied to rig/machine_control/boot.py, "
+          "struct_file.py and MachineController.boot by exact event-trace correspondence (connect/send/sleep/close, "
+          "returned structs, exceptions, caller dictionaries) over generated boot histories; sark.struct and the boot "
+          "constants are regenerated from the source on every run by an independent parser and the generated sv table "
+          "is proved well formed."),
     design="3/C20",
     note=("Domain: 4 | len image, 512 <= len image < 32 KiB, non-overlapping integer fields inside the struct, options "
           "naming fields with values that fit. Outside the domain only the correspondence is checked. The sleeps are "
@@ -376,7 +379,7 @@ def lean_call(case, c, obs=None):
          "image": image_bytes(c["image"]).hex(), "table": c["table"], "sv": c["sv"],
          "kwargs": c["kwargs"], "t1": c["t1"], "t2": c["t2"], "opts": own_opts(case, c)}
     if obs is not None and "ok" in obs["result"]:
-        j["datagrams"] = [e[1] for e in obs["events"] if e[0] == "send"]
+        j["datagrams"] = [e[1] for e in obs["events"] if e[0] in ("send", "sendto")]
         j["returned"] = obs["result"]["ok"]
     return j
 
@@ -448,7 +451,7 @@ def evaluate(ctx, cases):
                 elif not sp["all"]:
                     bad = [x for x in ("shape", "image", "config", "returned") if not sp[x]]
                     key = ("datagram-sequence" if "shape" in bad else
-                           "image-bytes" if "image" in bad and "config" not in bad else
+                           "image-bytes" if "image" in bad else
                            "config-area" if "config" in bad else "returned-struct")
                     r["violations"].append((key, "call %d: Lean specification fails on the implementation's output, clauses %s (options asked for: %s)" % (
                         k, bad, own_opts(case, c))))
@@ -621,11 +624,9 @@ def run(ctx):
                     cases.append(gen_history(rng, force_len=ln))
     for _ in range(n):
         cases.append(gen_history(rng))
-    first = True
     for i in range(0, len(cases), 50):
         chunk = cases[i:i + 50]
-        reports = evaluate(ctx, chunk)
-        report(ctx, chunk, reports, do_shrink=first or True)
+        report(ctx, chunk, evaluate(ctx, chunk))
 
 
 def replay(ctx, payload):
